@@ -342,7 +342,7 @@ func MutateValue(v string, choose Chooser) (string, string) {
 	variants := []struct{ name, v string }{
 		{"empty", ""}, {"long", strings.Repeat("A", 70000)}, {"nul", v + "\x00"}, {"truncated", v[:len(v)/2]},
 		{"json-null", "null"}, {"json-array", "[]"}, {"json-object", "{}"}, {"number", "-1"}, {"doubled", v + v}, {"space", " " + v + " "},
-		{"percent", "%zz" + v}, {"unicode", v + "‮﻿"},
+		{"percent", "%zz" + v}, {"unicode", v + "\u202e\ufeff"},
 	}
 	p := variants[choose("text-mutation", len(variants))]
 	return p.v, "text: " + p.name
